@@ -341,3 +341,57 @@ Proof.
   exists [43]. split; [repeat constructor; unfold is_byte; lia|].
   exists [43]. split; [vm_compute; reflexivity|]. vm_compute. discriminate.
 Qed.
+
+(* --- url.QueryUnescape as a reference: it fails on a '%' that is not followed by two hex digits ----- *)
+Fixpoint query_unescape (l : list Z) : option (list Z) :=
+  match l with
+  | [] => Some []
+  | c :: t =>
+      if c =? 37 then
+        match t with
+        | h1 :: h2 :: t2 =>
+            if is_hex h1 && is_hex h2
+            then match query_unescape t2 with Some r => Some ((hex_val h1 * 16 + hex_val h2) :: r) | None => None end
+            else None
+        | _ => None
+        end
+      else match query_unescape t with
+           | Some r => Some ((if c =? 43 then 32 else c) :: r)
+           | None => None
+           end
+  end.
+
+Lemma query_unescape_agrees_n : forall n l r, (length l <= n)%nat -> query_unescape l = Some r -> unescape l = r.
+Proof.
+  induction n as [|n IH]; intros l r Hn H.
+  - destruct l; [cbn in *; congruence|cbn in Hn; lia].
+  - destruct l as [|c t]; [cbn in *; congruence|]. cbn [length] in Hn. cbn [query_unescape unescape] in *.
+    destruct (c =? 37).
+    + destruct t as [|h1 [|h2 t2]]; try discriminate.
+      destruct (is_hex h1 && is_hex h2); [|discriminate].
+      destruct (query_unescape t2) as [r2|] eqn:E2; [|discriminate]. injection H as <-.
+      f_equal. apply IH; [cbn [length] in Hn; lia|assumption].
+    + destruct (query_unescape t) as [r2|] eqn:E2; [|discriminate]. injection H as <-.
+      rewrite (IH t r2) by (try lia; assumption). destruct (c =? 43); reflexivity.
+Qed.
+
+Lemma decode_agrees_queryunescape_proof :
+  forall b r, query_unescape b = Some r -> decode_url b = Ok r.
+Proof.
+  intros b r H. rewrite decode_spec_proof. f_equal. apply (query_unescape_agrees_n (length b)); [lia|assumption].
+Qed.
+
+Example query_unescape_example :
+  query_unescape [97; 37; 50; 48; 43; 98] = Some [97; 32; 32; 98] /\ query_unescape [37; 52] = None /\
+  decode_url [37; 52] = Ok [37; 52].
+Proof. vm_compute. repeat split; reflexivity. Qed.
+
+Lemma no_panic_url_proof :
+  forall b, Forall is_byte b ->
+    (exists r, encode_url b Tables.url_encoding_table = Ok r) /\
+    (exists r, encode_url b Tables.datauri_encoding_table = Ok r) /\
+    (exists r, decode_url b = Ok r).
+Proof.
+  intros b Hb. destruct (encode_exact_repo_tables b Hb) as [H1 H2].
+  split; [eauto|]. split; [eauto|]. rewrite decode_spec_proof. eauto.
+Qed.
